@@ -3,6 +3,7 @@ mod c13;
 mod spec;
 mod pcorr;
 mod c01;
+mod c03;
 mod c04;
 mod c07;
 mod c14;
@@ -40,6 +41,7 @@ fn main() {
     let rep = match prop.as_str() {
         "C13" => c13::run(&o),
         "C01" => c01::run(&o),
+        "C03" => c03::run(&o),
         "C04" => c04::run(&o),
         "C07" => c07::run(&o),
         "C14" => c14::run(&o),
